@@ -40,6 +40,39 @@ func BadReplace(i int) error {
 	return nil
 }
 
+// BadLoopOverwrite: only the last iteration's error survives.
+func BadLoopOverwrite(n int) error {
+	var err error
+	for i := 0; i < n; i++ {
+		err = step(i)
+	}
+	if err != nil {
+		return fmt.Errorf("loop: %w", err)
+	}
+	return nil
+}
+
+// GoodLoopJoin: every iteration's error is accumulated.
+func GoodLoopJoin(n int) error {
+	var err error
+	for i := 0; i < n; i++ {
+		err = errors.Join(err, step(i))
+	}
+	return err
+}
+
+// GoodLoopReturn: the error is examined inside the iteration.
+func GoodLoopReturn(n int) error {
+	var err error
+	for i := 0; i < n; i++ {
+		err = step(i)
+		if err != nil {
+			return err
+		}
+	}
+	return err
+}
+
 func GoodWrap(i int) error {
 	if err := step(i); err != nil {
 		return fmt.Errorf("wrap: %w", err)
